@@ -170,7 +170,12 @@ let () =
            (match cmd with
             | "note" :: _ -> ()
             | "eq" :: _ when !skip_pair -> bump ("pair-skipped-operand-not-OK:" ^ !dom)
-            | "eqres" :: _ when !skip_pair -> ()
+            | ("eqres" | "eqres3") :: _ when !skip_pair -> ()
+            | "eqres3" :: _ ->
+                if not !dead then (match !results with
+                 | r1 :: r2 :: r3 :: _ ->
+                     report "pairres" line (Printf.sprintf "call as chosen: %s ; on copies: %s ; on deep unshared rebuilds: %s" r1 r2 r3) (Some (r1 = r2 && r2 = r3))
+                 | _ -> raise (Syntax "eqres3 without three results"))
             | "eq" :: a :: b :: _ ->
                 if not !dead then begin
                   bump ("pair:" ^ !dom);
@@ -214,7 +219,7 @@ let () =
                 let gone = ref [] in
                 let opname = ref (List.hd cmd) in
                 (match cmd with
-                 | "copy" :: ("10" | "11" | "12" as t) :: y :: _ ->
+                 | ("copy" | "rebuild") :: ("10" | "11" | "12" | "20" | "21" | "22" as t) :: y :: _ ->
                      if t = "10" then skip_pair := false;
                      (match old (int_of_string y), Hashtbl.find_opt now (int_of_string t) with
                       | Some o, Some c -> if o.ok <> 1 || c.ok <> 1 then skip_pair := true
@@ -223,6 +228,7 @@ let () =
                 (match cmd with
                  | "new" :: x :: _ -> Hashtbl.replace expect (int_of_string x) ("new", None)
                  | "copy" :: x :: y :: _ -> Hashtbl.replace expect (int_of_string x) ("copy", old (int_of_string y))
+                 | "rebuild" :: x :: y :: _ -> Hashtbl.replace expect (int_of_string x) ("rebuild", old (int_of_string y))
                  | "del" :: x :: _ -> gone := [int_of_string x]
                  | "op" :: x :: "assign" :: y :: _ ->
                      opname := "assign";
